@@ -125,6 +125,31 @@ def randomV2 {σ α : Type} (G : Gen σ) (kind : Kind) (s : Int) (keys : List α
     | .global => (pickLoop G count (runEnv G sched (G.seed s)) keys []).1
   else keys
 
+/-! ### CR node-owner keys across a committee change (`dpos/state.State.handleEvents`, claim-node) -/
+
+/-- `CurrentCRNodeOwnerKeys` / `NextCRNodeOwnerKeys`: node key ↦ owner key of the council member -/
+structure NodeKeys where
+  current : List (Nat × Nat)
+  next : List (Nat × Nat)
+  deriving DecidableEq, Repr
+
+/-- the DPoS state's handler of `ETCRCChangeCommittee`: the next term's keys become current -/
+def onCommitteeChange (s : NodeKeys) : NodeKeys := ⟨s.next, []⟩
+
+/-- a current-term `CRCouncilMemberClaimNode`: the member's node key is replaced by `node` -/
+def onClaim (s : NodeKeys) (node owner : Nat) : NodeKeys :=
+  ⟨(node, owner) :: s.current.filter (fun p => p.2 != owner), s.next⟩
+
+def ownerOf (s : NodeKeys) (node : Nat) : Option Nat := (s.current.find? (fun p => p.1 == node)).map (·.2)
+
+/-- chain order — committee change in block H, claim in block H+1 — which synchronous delivery of
+    the event guarantees -/
+def syncRun (s : NodeKeys) (node owner : Nat) : NodeKeys := onClaim (onCommitteeChange s) node owner
+
+/-- the handler of the committee change runs after the claim of the next block was processed
+    (possible only if the notification is delivered on another goroutine) -/
+def lateRun (s : NodeKeys) (node owner : Nat) : NodeKeys := onCommitteeChange (onClaim s node owner)
+
 /-! ### order in which the checkpoint manager notifies its listeners -/
 
 /-- insertion into a list sorted by priority (strictly smaller first) -/
